@@ -83,7 +83,8 @@ class Kernel:
             extract.annotate_files(dumps[key])
         self.index(objs)
         fns = extract.find_functions(objs, self.fn_name, cls=self.cls, targs=self.targs, sig=self.sig,
-                                     want_pattern=self.want_pattern, plain_only=getattr(self, "plain_only", False))
+                                     want_pattern=self.want_pattern, plain_only=getattr(self, "plain_only", False),
+                                     cls_targs=getattr(self, "cls_targs", None))
         # de-duplicate by id
         seen = {}
         for f in fns:
